@@ -76,6 +76,7 @@ struct RunCtx {
     std::atomic<bool> release_latch{false};
     std::atomic<std::int64_t> seq{0};                            // global happens-before counter
     std::atomic<std::int64_t> delivered{0};                      // values seen by collecting sinks
+    std::atomic<std::int64_t> loop_accepted{0};                  // values a sink sent back into a push source from the evaluation thread
     std::atomic<std::int64_t> last_value{INT64_MIN};             // last (integer) value seen by a collecting sink
     std::string gid_of(const GraphView &g);
     void add(std::string s) { std::lock_guard<std::mutex> l(mu); trace.push_back(std::move(s)); }
